@@ -454,6 +454,12 @@ def run_c04(chk: Check) -> int:
         traces.append(make_trace(o, [[len(o)]] + [[c, len(o) - c] for c in range(1, len(o))], mode="free", origin="reader:cuts:" + ck))
     for b in captured_readouts():
         traces.append(make_trace(b + b"\r\n", chunkings(chk.rng, len(b) + 2, 4), mode="free", origin="reader:captured"))
+    # through a reader with a history: every noise kind (discarded over-long readouts, never-ending lines, junk), then check-summed readouts;
+    # whatever the reader went through before, each delivered readout is judged on C04 a-d
+    for k, kind in enumerate(P1_NOISE * (1 if quick else 6)):
+        plan = resync_plan(chk.rng, kind, 3)
+        data = plan_wire(plan)
+        traces.append(make_trace(data, chunkings(chk.rng, len(data), 2), mode="free", origin="reader:history:" + kind))
     judge_and_harvest(chk, traces, ("C04",), "c04-traces")
     t = next(t for t in traces if t["origin"] == "direct:checksum-field")
     ro = t["runs"][0]["calls"][0]["readouts"][0]
@@ -463,7 +469,7 @@ def run_c04(chk: Check) -> int:
     return chk.finish(rule="spec->code: every Gen_P1 grammar case (10 idents x 4 line sets x 6 checksum modes, real CRC) directly and through the "
                            "reader; code->spec: captured and generated readouts, every single-bit flip ("
                            + ("sampled above 100 octets" if quick else "all") + "), checksum field replaced by 0000/FFFF/correct/"
-                           "lower-case/off-by-one/random/absent/non-hex; TLC recomputes CRC-16 and the identification check for each; "
+                           "lower-case/off-by-one/random/absent/non-hex; readers with a history (13 noise kinds, then check-summed readouts); TLC recomputes CRC-16 and the identification check for each; "
                            "non-trivial = distinct readout observation")
 
 
